@@ -11,7 +11,8 @@ def run_part(c):
         "a case is non-trivial when its encoding has more than one byte; distinct = distinct (script, observation) JSON | "
         "records: generated Record / recordsArray / RecordBatch (0-5 records, headers, nil/empty/large keys and values, all five "
         "codecs, invalid versions/codecs/timestamps) / MessageSet (v0/v1 messages, compressed wrapper messages nested up to 2) / "
-        "Records union / ControlRecord / request header, encoded by sarama and decoded back (also embedded after junk); compressed "
+        "Records union / ControlRecord / request header, encoded by sarama and decoded back (also embedded after junk); "
+        "FetchResponseBlock (versions 0-11, 0-4 batches or one legacy set, aborted transactions) through encode -> decode -> re-encode -> decode; compressed "
         "payloads compared through the decompressed structure")
     c.trust("harness go/harness/cmd/c09prim + shims go/shims/wire1_prim.go, wire1_records.go (script interpreter over packetEncoder/realDecoder, "
             "value printers, error-id mapping, table of the compress/decompress calls located by a framing walk)")
